@@ -1,5 +1,5 @@
 PROP = {
-    "groups": ["relay"],
+    "groups": ["relay", "e2e-tmux-relay"],
     "rule": "scripted relay runs on the real trzsz.NewTrzszRelay over io.Pipes (1-3 transfers per relay; outcomes confirm / cancel / "
             "malformed ACT / malformed CFG; client type-ahead racing with the trigger, junk in front of the handshake line, the line split "
             "over several reads, the tail of the line and following bytes in one read, bytes after the line, transfer traffic racing with "
@@ -20,7 +20,7 @@ PROP = {
             "conserved; (b) sched:* -- the extracted model WITHOUT the guard (rg_step true) is searched for the schedules that break its invariant "
             "(every way of delaying one thread in front of one operation of a two-transfer history, relay_search_list), each is replayed operation "
             "by operation on the real relay through the scripted scheduler of the overlay and judged by the oracle and by trace validation; the model "
-            "with the current source's reset (relay_search gen) must find none",
+            "with the current source's reset (relay_search gen) must find none ; group e2e-tmux-relay: the real `trzsz -r` inside a pane of a real tmux server between the in-process client and trz/tsz (handshake parked and flushed through bypassTmuxChan to the client tty): tree identical, names, stop, status-interval restored after the relay exits",
     "trusted": ["modelled, not verified: the Go memory model is taken as sequentially consistent at the granularity of one atomic/lock/channel/buffer operation; "
                 "channel sends never block (a blocking send only removes schedules); readLine is abstracted to 'consumes some prefix of the parked bytes, "
                 "then accepts, rejects or waits' (its parsing is C03/C16); the detector is an arbitrary per-chunk rewriting (C06); "
